@@ -289,3 +289,57 @@ def cmac_boundary_kbpks(rng, want=(0x80,), versions="BD"):
                                 break
     _BOUNDARY_CACHE[key] = out
     return out
+
+
+def threaded_unwraps(rng, nthreads=8, per_thread=60):
+    """`nthreads` threads, each with its OWN KBPK, call the module-level tr31.unwrap on a mix of blocks genuine under
+    their key (must open to the key) and genuine under another thread's key (must be rejected), at switch interval
+    1e-6: state shared between calls (a module-level KeyBlock, cached derived keys) only fails here.  -> (violations, calls)"""
+    import sys
+    import threading
+    viol = []
+    keys = []
+    for i in range(nthreads):
+        v = "ABCD"[i % 4]
+        kbpk = rng.randbytes(16 if i % 2 else 24)
+        c = gen_case(rng, version=v, profile=rng.choice(["none", "few"]), keylen=16, mask=None)
+        g = tr31.wrap(kbpk, impl_header(c), c["key"])
+        keys.append((kbpk, g, c["key"]))
+    jobs = []
+    for ti in range(nthreads):
+        mine = []
+        for _ in range(per_thread):
+            if rng.random() < 0.5:
+                mine.append((keys[ti][0], keys[ti][1], keys[ti][2]))
+            else:
+                oi = rng.choice([x for x in range(nthreads) if x != ti and len(keys[x][0]) == len(keys[ti][0])] or [ti])
+                mine.append((keys[ti][0], keys[oi][1], keys[oi][2] if oi == ti else None))
+        jobs.append(mine)
+    res = [[None] * per_thread for _ in range(nthreads)]
+
+    def runner(ti):
+        for j, (kbpk, blk, _) in enumerate(jobs[ti]):
+            try:
+                res[ti][j] = ("OK", tr31.unwrap(kbpk, blk)[1])
+            except Exception as e:  # noqa: BLE001
+                res[ti][j] = ("ERR", core.bucket(e))
+
+    old = sys.getswitchinterval()
+    sys.setswitchinterval(1e-6)
+    try:
+        ths = [threading.Thread(target=runner, args=(k,)) for k in range(nthreads)]
+        for th in ths:
+            th.start()
+        for th in ths:
+            th.join()
+    finally:
+        sys.setswitchinterval(old)
+    for ti in range(nthreads):
+        for (kbpk, blk, want), r in zip(jobs[ti], res[ti]):
+            ok = (r == ("OK", want)) if want is not None else (r == ("ERR", "PsecError"))
+            if not ok and len(viol) < 10:
+                viol.append({"what": "module-level unwrap under %d concurrent threads with different KBPKs: %s" % (
+                                 nthreads, "a block genuine under ANOTHER thread's KBPK was not rejected" if want is None else "a genuine block did not open to its key"),
+                             "input": {"kbpk": kbpk.hex(), "string": blk, "history": "%d threads, each unwrapping with its own KBPK" % nthreads},
+                             "expected": "PsecError" if want is None else core.show(want), "observed": [str(x)[:80] for x in r]})
+    return viol, nthreads * per_thread
